@@ -31,6 +31,9 @@
 (*   reqForm: "name" | "path"  modules are requested by name, or as paths of    *)
 (*            files in the first source directory (the script then adds that    *)
 (*            directory to the sources itself and strips directory + extension) *)
+(*   stubB  : BOOLEAN   --mib-stub=BB-MIB is given: BB-MIB is never generated,  *)
+(*            and - the option REPLACES the default stub list - the base         *)
+(*            modules are no longer stubs: they are compiled and stored too     *)
 (*   borA/B : BOOLEAN                       file in the borrower directory     *)
 (*   base   : BOOLEAN                       SNMPv2-SMI/-TC/-CONF in the source  *)
 (*   noDeps, rebuild, ignoreErrors, noWrites, dryRun, buildIndex, quiet : flags *)
@@ -91,7 +94,7 @@ BorOf(wd, m) == CASE Fmt = "null" -> FALSE [] m \in {"AA-MIB", "Aa-Mib"} -> wd.b
 \*                  null   = [StubSearcher(base)]
 FileSearcher(wd, m) == IF wd.rebuild THEN "silent" ELSE IF wd.dstKind = "dir" /\ DstOf(wd, m) = "fresh" THEN "fresh" ELSE "absent"
 SeaAnsOf(wd, k, m) ==
-  IF k = NSea THEN (IF m \in BaseSet THEN "fresh" ELSE "absent")
+  IF k = NSea THEN (IF m \in (IF wd.stubB THEN {"BB-MIB"} ELSE BaseSet) THEN "fresh" ELSE "absent")
   ELSE IF k = 1 THEN FileSearcher(wd, m)
   ELSE IF k = 2 /\ m \in BaseSet THEN (IF wd.rebuild THEN "silent" ELSE "fresh")      \* pysnmp ships these modules
   ELSE "absent"
@@ -136,7 +139,7 @@ DInitW(wd) ==
 
 DInit ==
   \E wd \in [usage : Dom.usage, req : Dom.req, srcA : Dom.srcA, src2A : Dom.src2A, srcB : Dom.srcB, alias : Dom.alias, sub : Dom.sub, imp : Dom.imp, spell : Dom.spell,
-             dstA : Dom.dstA, dstB : Dom.dstB, dstKind : Dom.dstKind, reqForm : Dom.reqForm, borA : Dom.borA, borB : Dom.borB, base : Dom.base,
+             dstA : Dom.dstA, dstB : Dom.dstB, dstKind : Dom.dstKind, reqForm : Dom.reqForm, stubB : Dom.stubB, borA : Dom.borA, borB : Dom.borB, base : Dom.base,
              noDeps : Dom.noDeps, rebuild : Dom.rebuild, ignoreErrors : Dom.ignoreErrors, noWrites : Dom.noWrites,
              dryRun : Dom.dryRun, texts : Dom.texts, buildIndex : Dom.buildIndex, quiet : Dom.quiet] :
      Keep(wd) /\ DInitW(wd)
